@@ -305,9 +305,14 @@ func (v *FHIRPathVisitor) VisitLiteralTerm(ctx *grammar.LiteralTermContext) inte
 func (v *FHIRPathVisitor) VisitExternalConstantTerm(ctx *grammar.ExternalConstantTermContext) interface{} {
 	ident := ctx.ExternalConstant().GetText()
 	ident = strings.TrimPrefix(ident, "%")
-	// %`name` and %'name' denote the variable called name: the delimiters are not part of it
+	// %`name` and %'name' denote the variable called name: the delimiters are not part of it,
+	// and escapes are decoded in both forms, as in every other delimited identifier
 	if len(ident) >= 2 && ident[0] == '`' && ident[len(ident)-1] == '`' {
-		ident = ident[1 : len(ident)-1]
+		name, err := identifierName(ident)
+		if err != nil {
+			return &VisitResult{nil, err}
+		}
+		ident = name
 	} else if len(ident) >= 2 && ident[0] == '\'' {
 		str, err := system.ParseString(ident)
 		if err != nil {
